@@ -2249,14 +2249,15 @@ class GtkDocCommentBlockParser(object):
         if result.success:
             description_field = fields[result.end_pos:].strip()
 
-            if description_field and validate_description_field:
+            # The ":" is the delimiter between annotations and description; without
+            # annotations a leading ":" belongs to the description (e.g. "::signal-name")
+            if description_field and validate_description_field and result.end_pos > 0:
                 if description_field.startswith(':'):
                     description_field = description_field[1:]
                 else:
-                    if result.end_pos > 0:
-                        marker_pos = column + result.end_pos
-                        warn('missing ":" at column %s:' % (marker_pos + 1, ),
-                             position, None, marker_pos, line)
+                    marker_pos = column + result.end_pos
+                    warn('missing ":" at column %s:' % (marker_pos + 1, ),
+                         position, None, marker_pos, line)
 
         return _ParseFieldsResult(result.success, result.annotations, result.annotations_changed,
                                   description_field)
